@@ -1,4 +1,5 @@
 import Proofs.F32Approx
+import Proofs.F32Exact
 import Model.Color
 import Mathlib.Data.Nat.Cast.Order.Field
 import Mathlib.Tactic.FieldSimp
@@ -6,59 +7,6 @@ import Mathlib.Tactic.FieldSimp
 `as u16` cast. -/
 namespace F32
 open Real
-
-/-- a dyadic with a significand below 2^24 and quantum at least 2^-149 is represented exactly -/
-theorem roundPack_exact (n : Bool) (m : Nat) (e : Int) (hm : m < 16777216) (he : -149 ≤ e) (hfit : (m:ℝ) * (2:ℝ)^e < (2:ℝ)^(127:ℤ)) :
-    ∃ m' e', decode (roundPack n m e) = .fin n m' e' ∧ (m':ℝ) * (2:ℝ)^e' = (m:ℝ) * (2:ℝ)^e := by
-  by_cases hz : m = 0
-  · subst hz
-    have hrp : roundPack n 0 e = signBit n := by simp [roundPack]
-    rw [hrp]
-    exact ⟨0, -149, decode_signBit n, by simp⟩
-  · have hfit' := fit_of_lt m e hz hfit
-    obtain ⟨m', e', hdec, _⟩ := roundPack_val n m e hz hfit'
-    -- the exactness: roundMQ takes its first branch
-    obtain ⟨hlo, hhi⟩ := log2_bounds m hz
-    have hL : Nat.log2 m + 1 ≤ 24 := by
-      by_contra hc
-      have : 2 ^ 24 ≤ 2 ^ (Nat.log2 m) := Nat.pow_le_pow_right (by decide) (by omega)
-      have h24 : (2:Nat) ^ 24 = 16777216 := by decide
-      omega
-    have hq : (roundMQ m e).2 ≤ e := by rw [roundMQ_q]; omega
-    have hexact : ((roundMQ m e).1 : ℝ) * (2:ℝ)^((roundMQ m e).2) = (m:ℝ) * (2:ℝ)^e := by
-      have hq' := hq
-      unfold roundMQ at hq' ⊢
-      simp only [consts.1, consts.2.2.2.1] at hq' ⊢
-      split
-      · rename_i hle
-        simp only []
-        push_cast
-        rw [mul_assoc, ← zpow_natCast, ← zpow_add₀ (by norm_num : (2:ℝ) ≠ 0)]
-        congr 2; omega
-      · rename_i hle
-        simp only [hle, if_false] at hq'
-    -- decode of the packed result carries (roundMQ m e) up to the carry/subnormal re-normalisation, which preserves the value
-    unfold roundPack at hdec ⊢
-    simp only [hz, if_false] at hdec ⊢
-    obtain ⟨w1, w2, w3⟩ := roundMQ_wf m e hz
-    have hqb := roundMQ_q m e
-    generalize (roundMQ m e).1 = mant at *
-    generalize (roundMQ m e).2 = q at *
-    have hq127 : q + 24 ≤ 127 := by omega
-    by_cases hc : mant = 16777216
-    · have hd := decode_encode_carry n mant hc q w1 hq127
-      refine ⟨_, _, hd, ?_⟩
-      have : ((8388608:ℕ):ℝ) * (2:ℝ)^(q+1) = (mant:ℝ) * (2:ℝ)^q := by
-        rw [hc, zpow_add₀ (by norm_num : (2:ℝ) ≠ 0)]; push_cast; ring
-      rw [this, hexact]
-    · by_cases hs : mant < 8388608
-      · have hq149 := w3 hs
-        subst hq149
-        have hd := decode_encode_sub n mant hs
-        exact ⟨_, _, hd, hexact⟩
-      · have hd := decode_encode_normal n mant q (by omega) (by omega) w1 (by omega)
-        exact ⟨_, _, hd, hexact⟩
-
 
 /-- integer part computed by the casts: for a decoded value that is exactly the natural number `k`, truncation returns `k` -/
 theorem trunc_of_nat (m : Nat) (e : Int) (k : Nat) (h : (m:ℝ) * (2:ℝ)^e = (k:ℝ)) :
